@@ -511,6 +511,16 @@ fn run_op_inner(st: &mut State, op: &Op) -> Obs {
             if fd < 0 { return Obs { ok: false, errno: Some(std::io::Error::last_os_error().raw_os_error().unwrap_or(0)), kind: Some("raw".into()), ..Default::default() }; }
             ok_fd(st, op, unsafe { OwnedFd::from_raw_fd(fd) })
         }
+        (_, "occupy_low") => {
+            // make sure descriptors 0,1,2 are occupied so that the library's own opens never land on them by accident
+            for fd in 0..3 {
+                if unsafe { libc::fcntl(fd, libc::F_GETFD) } < 0 {
+                    let n = unsafe { libc::open(b"/\0".as_ptr() as *const c_char, libc::O_PATH | libc::O_CLOEXEC) };
+                    if n >= 0 && n != fd { unsafe { libc::dup3(n, fd, libc::O_CLOEXEC); libc::close(n); } }
+                }
+            }
+            Obs { ok: true, ..Default::default() }
+        }
         (_, "close_stdin") => { unsafe { libc::close(0) }; Obs { ok: true, ..Default::default() } }
         (_, "getpid") => Obs { ok: true, ret: Some(unsafe { libc::getpid() } as i64), ..Default::default() },
         (_, "fdtable") => Obs { ok: true, fds_after: fd_table(), ..Default::default() },
@@ -547,12 +557,15 @@ fn main() {
         "serve" => {
             let setup: Setup = serde_json::from_str(&args[2]).unwrap_or_else(|e| die(&format!("bad setup: {}", e)));
             apply_setup(&setup);
-            let stdin = std::io::stdin();
-            let mut out = std::io::stdout();
+            // the protocol pipes are moved to high descriptor numbers so that checks may place handles on 0/1/2
+            let (pin, pout) = unsafe { (libc::fcntl(0, libc::F_DUPFD_CLOEXEC, 900), libc::fcntl(1, libc::F_DUPFD_CLOEXEC, 901)) };
+            if pin < 0 || pout < 0 { die("cannot relocate protocol descriptors"); }
+            let mut stdin = std::io::BufReader::new(unsafe { std::fs::File::from_raw_fd(pin) });
+            let mut out = unsafe { std::fs::File::from_raw_fd(pout) };
             let mut line = String::new();
             loop {
                 line.clear();
-                match stdin.lock().read_line(&mut line) { Ok(0) => break, Ok(_) => {}, Err(_) => break }
+                match stdin.read_line(&mut line) { Ok(0) => break, Ok(_) => {}, Err(_) => break }
                 let req: Request = match serde_json::from_str(&line) { Ok(r) => r, Err(e) => die(&format!("bad request: {}", e)) };
                 let mut resp = Response::default();
                 for op in &req.ops { resp.obs.push(run_op(&mut st, op)); }
